@@ -12,6 +12,8 @@ mod lru_cache;
 mod page_manager;
 mod region;
 mod savepoint;
+#[cfg(redb_verif)]
+pub mod verif;
 #[allow(clippy::pedantic, dead_code)]
 mod xxh3;
 
